@@ -220,8 +220,9 @@ def online_chunks(sig, cuts):
     return nup, chunks
 
 
-def alg_online_query(items):
-    """items: (formula, sig, cuts) -> what the mirror of the dense online operation classes (Rtamt/Dense/AlgOn.lean) returns
+def alg_online_query(items, cmd="denseon"):
+    """items: (formula, sig, cuts) -> what the mirror of the dense online operation classes (Rtamt/Dense/AlgOn.lean) - or with
+    cmd="denseongen" the classes translated from the source (GeneratedDenseOn.lean) run under DnOn.lean - returns
     for every update: ("ok", [[(Fraction | inf, float)], ...]) | ("err", kind) | ("undef",)."""
     lines = []
     for f, sig, cuts in items:
@@ -231,7 +232,7 @@ def alg_online_query(items):
             parts = ["%s:%s" % (v, ",".join("%d/%d@%d" % (t.numerator, t.denominator, f2b(x)) for (t, x) in chunks[v][i]))
                      for v in sorted(sig) if chunks[v][i]]
             fields.append(" & ".join(parts) if parts else "-")
-        lines.append("denseon | %d/%d | %s | %s" % (SCALE.numerator, SCALE.denominator, F.to_proto(f), " | ".join(fields)))
+        lines.append("%s | %d/%d | %s | %s" % (cmd, SCALE.numerator, SCALE.denominator, F.to_proto(f), " | ".join(fields)))
     res = []
     for o, ln in zip(common.driver_run(lines), lines):
         if o.startswith("undef"):
@@ -261,6 +262,29 @@ def flush_online_mirror(ctx):
     ctx.pending_mirror = []
     if not pend:
         return
+    for which, cmd, stream in (("the operation classes translated from the source (GeneratedDenseOn.lean under DnOn.lean)", "denseongen",
+                                "on-c/translated"), (None, "denseon", "on-c/mirror")):
+        if which is None:
+            break
+        for (f, sig, cuts, text, out), m in zip(pend, alg_online_query([(f, sig, cuts) for f, sig, cuts, _, _ in pend], cmd=cmd)):
+            ctx.count("on-translated:" + m[0])
+            if m[0] == "undef" or m[0] == "err":
+                # NaN samples; exceptions: the kinds differ between the float `last` of case 1 and the mirror's TypeError
+                if not (m[0] == "err" and out[0] == "ok" and not any(p[1] != p[1] for row in out[1] for p in row)):
+                    continue
+            if out[0] == "ok" and any(p[1] != p[1] for row in out[1] for p in row):
+                continue
+            if out[0] == "ok" and m[0] == "ok":
+                same = len(out[1]) == len(m[1]) and all(same_samples(a, b) for a, b in zip(out[1], m[1]))
+            else:
+                same = out[0] != "ok" and m[0] == "err"
+            if not same:
+                rep = {"monitor": "onc", "spec": text, "formula": F.to_proto(f), "signals": sig_rep(sig),
+                       "cuts": ({k: [str(c) for c in cs] for k, cs in cuts.items()} if isinstance(cuts, dict) else [str(c) for c in cuts]),
+                       "impl": out, "translated": [[[str(t), v] for t, v in row] for row in m[1]] if m[0] == "ok" else list(m)}
+                ctx.diffs.append(Violation("%s return %r, update() returned %r: %s"
+                                           % (which, m[1] if m[0] == "ok" else m, out[1] if out[0] == "ok" else out[1:], text), rep,
+                                           failing_input=False, stream=stream))
     for (f, sig, cuts, text, out), m in zip(pend, alg_online_query([(f, sig, cuts) for f, sig, cuts, _, _ in pend])):
         ctx.count("on-mirror:" + m[0])
         if m[0] == "undef" or (m[0] == "err" and m[1] == "type"):
